@@ -1,4 +1,4 @@
-From Tetl Require Import Lib.Base Lib.Arr C06a.Model C06a.ModelOut C06a.Spec C06a.Instances C06a.Instances2 C06a.IterModel C06a.Spec2.
+From Tetl Require Import Lib.Base Lib.Arr C06a.Model C06a.ModelOut C06a.Spec C06a.Instances C06a.Instances2 C06a.IterModel C06a.Spec2 C06a.ModelMove.
 Require Extraction.
 Require Import ExtrOcamlBasic.
 Extraction Language OCaml.
@@ -15,4 +15,5 @@ Extraction "C06a_model.ml" wire_anchor
   advance_m next_m prev_m distance_m rev_eq rev_ne rev_lt rev_le rev_gt rev_ge rev_plus rev_minus rev_diff
   rev_deref rev_index rev_incr rev_decr rpos
   copy_out copy_if_out remove_copy_if_out transform1_out transform2_out copy_n_out fill_n_out generate_n_out
-  reverse_copy_out rotate_copy_out unique_copy_out partition_copy_out copy_backward_out emit_spec emit_backward_spec.
+  reverse_copy_out rotate_copy_out unique_copy_out partition_copy_out copy_backward_out emit_spec emit_backward_spec
+  unique_mv remove_if_mv shift_left_mv shift_right_mv move_fwd_mv move_bwd_mv.
